@@ -288,6 +288,15 @@ def vs_rules(ctx, pfx):
                key='RF-ORDER|%s.S2|%s' % (pfx, 'tomb' if not ok1 else 'optin'))
     if not ex:
         ctx.ob(pfx + '.S2', 'RF-ORDER', True, b.path, where, 'no value-less existence path exists', nontrivial=False)
+    # the comparison of the value with TOMBSTONE (= the empty byte string, also a legal published value) only chooses
+    # between the two existence checks: it must never decide a rejection by itself — a verifier that did not opt in
+    # rejects a tombstoned entry because its hash check fails, and accepts a genuinely empty value whose hash matches
+    # (seeded change C20-r2-a added `Default ∧ value == TOMBSTONE => Err`)
+    rej = [g for g in b.guards() if g['fail'] and g['cond'][0] != 'discr' and 'TOMBSTONE' in show(g['cond'])]
+    ctx.ob(pfx + '.S2.tombstone_never_rejects', 'RF-GUARD', not rej, b.path, '%s:%s' % (b.file, rej[0]['line'] if rej else b.line),
+           'no rejection is decided by comparing the value with TOMBSTONE' if not rej else
+           'a failing exit is decided by `value == TOMBSTONE` (line %s): genuinely empty values are rejected' % rej[0]['line'],
+           key='RF-GUARD|%s.S2|tombstone_never_rejects' % pfx)
     # S3/S4: previous version retired in the same epoch
     dec = decisions(b, lambda fc: fc[0] == 'rel' and access_path(fc[2]) == 'proof.version' and (
         (fc[1] == 'le' and is_const(fc[3], 1)) or (fc[1] == 'lt' and is_const(fc[3], 2))))
